@@ -130,7 +130,7 @@ func ruleCutCheck(c *Ctx) {
 				}
 			}
 		}
-		return false
+		return c.isResolverWrapper(fam, g)
 	}
 	nRef, nDesc := 0, 0
 	for _, comp := range c.sccs() {
@@ -566,7 +566,9 @@ func ruleNilRes(c *Ctx) {
 			key := fmt.Sprintf("%s:nil-return#%d", fn, n)
 			eid, ok := unparen(rs.Results[1]).(*ast.Ident)
 			if !ok || isNilIdent(c, rs.Results[1]) {
-				c.ob(rule, key, rs.Pos(), false, "returns a nil schema with a nil (or non-variable) error: callers that check only the error dereference nil")
+				// an unexported producer every caller of which tests the result against nil before using it may
+				// say "nothing, and no error" (a continued failure)
+				c.ob(rule, key, rs.Pos(), c.allCallersNilTest(f), "returns a nil schema with a nil (or non-variable) error: callers that check only the error dereference nil")
 				return true
 			}
 			proven := false
@@ -979,6 +981,61 @@ func (c *Ctx) loopBounded(fd *ast.FuncDecl, ix *ast.IndexExpr) bool {
 			return true
 		})
 	}
+	// the key of a range over P, used to index a local slice made with make(T, len(P) ...) that is afterwards only
+	// appended to (it never gets shorter)
+	if xid, isId := unparen(ix.X).(*ast.Ident); isId && !bounded {
+		madeFor := ""
+		okDefs := true
+		for _, d := range c.localDefs(fd)[c.objOf(xid)] {
+			call, isCall := unparen(d).(*ast.CallExpr)
+			switch {
+			case d == nil:
+				okDefs = false
+			case isCall && c.isBuiltin(call, "make") && len(call.Args) >= 2:
+				if lc, isLen := unparen(call.Args[1]).(*ast.CallExpr); isLen && c.isBuiltin(lc, "len") && len(lc.Args) == 1 && madeFor == "" {
+					madeFor = exprString(lc.Args[0])
+				} else {
+					okDefs = false
+				}
+			case isCall && c.isBuiltin(call, "append") && len(call.Args) >= 1 && exprString(call.Args[0]) == xid.Name:
+			default:
+				okDefs = false
+			}
+		}
+		if okDefs && madeFor != "" {
+			ast.Inspect(fd.Body, func(n ast.Node) bool {
+				rs, ok := n.(*ast.RangeStmt)
+				if !ok || rs.Key == nil || ix.Pos() < rs.Body.Pos() || ix.End() > rs.Body.End() {
+					return true
+				}
+				k, ok := rs.Key.(*ast.Ident)
+				if !ok || c.objOf(k) != o || exprString(rs.X) != madeFor {
+					return true
+				}
+				written := false
+				ast.Inspect(rs.Body, func(m ast.Node) bool {
+					switch x := m.(type) {
+					case *ast.AssignStmt:
+						for _, l := range x.Lhs {
+							if lid, ok := l.(*ast.Ident); ok && (c.objOf(lid) == o || c.objOf(lid) == c.objOf(xid)) {
+								written = true
+							}
+						}
+					case *ast.IncDecStmt:
+						if lid, ok := x.X.(*ast.Ident); ok && c.objOf(lid) == o {
+							written = true
+						}
+					}
+					return true
+				})
+				// (the collection ranged over is evaluated once: its length at that time is the length made)
+				if _, isMap := c.typeOf(rs.X).Underlying().(*types.Map); !written && !isMap {
+					bounded = true
+				}
+				return true
+			})
+		}
+	}
 	return bounded
 }
 
@@ -1285,7 +1342,8 @@ func ruleNoPanicPath(c *Ctx) {
 			key := s.fn + "/" + s.kind + "/" + s.detail
 			_, audited := auditedPanicSites[key]
 			// the reason these two are safe lies in where the text comes from, not in which function parses it
-			if !audited && s.kind == "must" && (s.detail == "MustCreateRef(<normalizeURI result>)" || s.detail == "MustCreateRef(<printed URL>)") {
+			if !audited && s.kind == "must" && (s.detail == "MustCreateRef(<normalizeURI result>)" || s.detail == "MustCreateRef(<printed URL>)" || s.detail == "MustCreateRef(<empty text>)") {
+				// (the empty text is the empty relative reference: url.Parse accepts it by definition)
 				audited = true
 			}
 			if !audited && s.kind == "panic" && c.ownedByMustAPI(f) {
@@ -1325,6 +1383,9 @@ func (c *Ctx) refTextProvenance(fd *ast.FuncDecl, e ast.Expr, depth int) string 
 	e = unparen(e)
 	if depth > 3 {
 		return exprString(e)
+	}
+	if k, isConst := c.constString(e); isConst && k == "" {
+		return "<empty text>"
 	}
 	switch x := e.(type) {
 	case *ast.CallExpr:
@@ -1405,11 +1466,34 @@ func (c *Ctx) structMapFieldAlwaysMade(f *types.Var) bool {
 		return false
 	}
 	ok, lits := true, 0
+	// `var _ Iface = &T{}`: a compile-time assertion, the value is never used
+	discarded := map[*ast.CompositeLit]bool{}
+	for _, file := range c.Files {
+		ast.Inspect(file, func(n ast.Node) bool {
+			vs, isVS := n.(*ast.ValueSpec)
+			if !isVS || len(vs.Names) != len(vs.Values) {
+				return true
+			}
+			for i, nm := range vs.Names {
+				if nm.Name != "_" {
+					continue
+				}
+				e := unparen(vs.Values[i])
+				if u, isAddr := e.(*ast.UnaryExpr); isAddr && u.Op == token.AND {
+					e = unparen(u.X)
+				}
+				if lit, isLit := e.(*ast.CompositeLit); isLit {
+					discarded[lit] = true
+				}
+			}
+			return true
+		})
+	}
 	for _, file := range c.Files {
 		ast.Inspect(file, func(n ast.Node) bool {
 			switch x := n.(type) {
 			case *ast.CompositeLit:
-				if !isOwner(c.typeOf(x)) {
+				if !isOwner(c.typeOf(x)) || discarded[x] {
 					return true
 				}
 				lits++
@@ -1718,5 +1802,112 @@ func (c *Ctx) simCallDescends(fam *expFamily, fd *ast.FuncDecl, call *ast.CallEx
 			}
 		}
 	}
+	if seen == 0 {
+		// the callee is a wrapper that is looked through (a schema held by reference handed on to a schema
+		// expander): the calls made from its inlined body stand for this one
+		if g, isF := c.callee(call).(*types.Func); isF && c.isNestedSchemaWrapper(fam, g) {
+			if gd := c.decl(g); gd != nil && gd.Body != nil {
+				for _, p := range paths {
+					for _, e := range p.effs {
+						if e.kind != "call" || e.call.call == nil || len(e.call.args) == 0 || e.call.call.Pos() < gd.Body.Pos() || e.call.call.End() > gd.Body.End() {
+							continue
+						}
+						if h, ok := e.call.callee.(*types.Func); !ok || !fam.schemaExp[h] {
+							continue
+						}
+						seen++
+						pos, ok := c.posBelow(fam, e.call.args[0], elem, 0)
+						if !ok || len(pos) == 0 {
+							all = false
+						}
+					}
+				}
+			}
+		}
+	}
 	return seen > 0 && all
+}
+
+// isResolverWrapper: an unexported loader method (not a schema expander, no parent stack) that reaches the
+// reference resolver without reaching any schema expander: a wrapper around "follow this $ref".
+func (c *Ctx) isResolverWrapper(fam *expFamily, g *types.Func) bool {
+	if g == nil || g.Pkg() != c.Types || fam.schemaExp[g] || fam.withParents[g] || c.decl(g) == nil {
+		return false
+	}
+	sig := g.Type().(*types.Signature)
+	hasLoader := sig.Recv() != nil && isNamed(sig.Recv().Type(), c.Types, fam.loader.Obj().Name())
+	for i := 0; i < sig.Params().Len(); i++ {
+		if isNamed(sig.Params().At(i).Type(), c.Types, fam.loader.Obj().Name()) {
+			hasLoader = true
+		}
+	}
+	if !hasLoader {
+		return false
+	}
+	reachesResolve := c.reaches(g, func(h *types.Func) bool { return h == fam.resolveRef })
+	reachesExpander := c.reaches(g, func(h *types.Func) bool { return h != g && fam.schemaExp[h] })
+	return reachesResolve && !reachesExpander
+}
+
+// allCallersNilTest: f is unexported and at every package call `x, .. := f(..)` each dereference of x lies where
+// x != nil is known.
+func (c *Ctx) allCallersNilTest(f *types.Func) bool {
+	if f.Exported() {
+		return false
+	}
+	sites, good := 0, true
+	for _, g := range c.allFuncDecls() {
+		if g.Body == nil {
+			continue
+		}
+		ast.Inspect(g.Body, func(n ast.Node) bool {
+			as, ok := n.(*ast.AssignStmt)
+			if !ok || len(as.Rhs) != 1 || len(as.Lhs) < 1 {
+				return true
+			}
+			call, ok := unparen(as.Rhs[0]).(*ast.CallExpr)
+			if !ok || c.callee(call) != types.Object(f) {
+				return true
+			}
+			sites++
+			xid, ok := as.Lhs[0].(*ast.Ident)
+			if !ok || xid.Name == "_" {
+				return true
+			}
+			x := c.objOf(xid)
+			ast.Inspect(g.Body, func(m ast.Node) bool {
+				var target ast.Expr
+				switch d := m.(type) {
+				case *ast.StarExpr:
+					target = d.X
+				case *ast.SelectorExpr:
+					target = d.X
+				default:
+					return true
+				}
+				id, isId := unparen(target).(*ast.Ident)
+				if !isId || c.objOf(id) != x || m.Pos() < as.End() {
+					return true
+				}
+				guarded := false
+				for _, cl := range c.literalsAt(g, m) {
+					be, isB := unparen(cl.e).(*ast.BinaryExpr)
+					if !isB {
+						continue
+					}
+					if bid, ok := unparen(be.X).(*ast.Ident); ok && c.objOf(bid) == x && isNilIdent(c, be.Y) {
+						if be.Op == token.NEQ && !cl.neg || be.Op == token.EQL && cl.neg {
+							guarded = true
+						}
+					}
+				}
+				if !guarded {
+					good = false
+				}
+				return true
+			})
+			return true
+		})
+	}
+	return good && sites > 0
 }
